@@ -99,7 +99,9 @@ def harnesses(tier, seed):
         p = ctx.choose(ps, "params")
         ys = ys_lin if st.startswith("lin") else ys_exp
         for y in ys:
-            _judge(ctx, {"strategy": st, "x": list(xp), "y": list(y), "n": n, "p": RC.pkey(p)})
+            yi = sum(y)
+            _judge(ctx, {"strategy": st, "x": list(xp), "y": list(y), "n": n, "p": RC.pkey(p),
+                         "y_off": float(2 ** 40) if yi % 7 == 3 else 0, "twice": yi % 5 == 1})
         if n == 5 and xp == W.XPATTERNS[0] and st == "expfix" and p.get("exp") == 2:
             ctx.sample({"strategy": st, "x": list(xp), "n": n, "p": RC.pkey(p), "y": "all of the value lattice ^5"})
 
